@@ -56,11 +56,25 @@ char *g_big; size_t g_big_size; size_t g_big_hi;
 #define fgets(s, n, f) VP_FGETS_W(VP_WRITE_BYTES, s, n, f)
 #define vp_fgets_big(s, n, f) VP_FGETS_W(VP_WRITE_BYTES_BIG, s, n, f)
 
+/* with -DVP_TRACK_FREAD: the bytes of COMPLETE items delivered by fread so far (what the caller may rely on), for the contracts that say
+   "a value reported as read was read completely" */
+#ifdef VP_TRACK_FREAD
+size_t g_fread_total;
+#define VP_FREAD_COUNT(n) (g_fread_total += (n))
+#define VP_FREAD_REQ __CPROVER_requires(g_fread_total < ((size_t)1 << 40))
+#define VP_FREAD_ENS(cond, nbytes) __CPROVER_ensures((cond) ==> g_fread_total == __CPROVER_old(g_fread_total) + (nbytes))
+#define VP_FREAD_ASSIGNS , g_fread_total
+#else
+#define VP_FREAD_COUNT(n) ((void)0)
+#define VP_FREAD_REQ
+#define VP_FREAD_ENS(cond, nbytes)
+#define VP_FREAD_ASSIGNS
+#endif
 #define VP_FREAD_W(W, p, size, nmemb, f) ({ void *vp_p = (void *)(p); size_t vp_sz = (size), vp_nm = (nmemb); (void)(f); \
   __CPROVER_assert(vp_sz == 0 || vp_nm <= SIZE_MAX / vp_sz, "fread: size * nmemb does not overflow"); \
   __CPROVER_assert(vp_sz * vp_nm == 0 || __CPROVER_w_ok(vp_p, vp_sz * vp_nm), "fread: the buffer holds size * nmemb bytes"); \
   W(vp_p, vp_sz * vp_nm); \
-  size_t vp_rr = nondet_size_t(); __CPROVER_assume(vp_rr <= vp_nm); vp_rr; })
+  size_t vp_rr = nondet_size_t(); __CPROVER_assume(vp_rr <= vp_nm); VP_FREAD_COUNT(vp_rr * vp_sz); vp_rr; })
 #define fread(p, size, nmemb, f) VP_FREAD_W(VP_WRITE_BYTES, p, size, nmemb, f)
 #define vp_fread_big(p, size, nmemb, f) VP_FREAD_W(VP_WRITE_BYTES_BIG, p, size, nmemb, f)
 
